@@ -438,7 +438,11 @@ func (c *otApplyContext) matchPropertiesMark(glyph GID, glyphProps uint16, match
 	/* If using mark filtering sets, the high uint16 of
 	 * matchProps has the set index. */
 	if uint16(matchProps)&font.UseMarkFilteringSet != 0 {
-		_, has := c.gdef.MarkGlyphSetsDef.Coverages[matchProps>>16].Index(gID(glyph))
+		sets := c.gdef.MarkGlyphSetsDef.Coverages
+		if int(matchProps>>16) >= len(sets) { // invalid font: no such set, nothing is covered
+			return false
+		}
+		_, has := sets[matchProps>>16].Index(gID(glyph))
 		return has
 	}
 
